@@ -1535,6 +1535,15 @@ func (f *fnTrans) loopEntry(li *loopInfo, preds []*ssa.BasicBlock, conds []Term)
 			}
 		}
 	}
+	// finished objects received as parameters satisfy their type invariant at the loop head too
+	// (every store of this function to such an object re-establishes it on the spot)
+	for _, p := range f.fn.Params {
+		if _, ok := p.Type().Underlying().(*types.Pointer); ok && !f.isConstructing(p) {
+			if inv := f.typeInv(f.vals[p], p.Type()); inv.S != "true" {
+				f.factHere(inv)
+			}
+		}
+	}
 	f.frameLoopCheck("head", li, hdr, f.cur, f.here(), true)
 	li.preState = f.cur.Clone()
 	if li.spec != nil {
